@@ -127,6 +127,7 @@ def _join_geom(V):
     cb = [list(r) for r in B.fields["_coords"].data]
     dist = V.sym("dist", "real")
     V.assume(dist.z > 0)
+    V.witness(lambda ev: {"op": "join", "signature": "join-geometry"})
     V.cover()
     cls = V.cls(M.CLS["Molecule"])
     I.target = f"{ST}.join"
